@@ -110,7 +110,8 @@ def _noise_keys(rng, nbits):
   """Healthy moduli of slightly shorter, odd bit lengths (same encoded byte length as the target) and of another size."""
   from pv import art as _art
   out = []
-  for j, bits in enumerate((nbits - 2, nbits - 7, 1024 if nbits != 1024 else 2048)):
+  # ... and a short modulus (per-key limits derived from one key must not carry over to the next key of the batch)
+  for j, bits in enumerate((nbits - 2, nbits - 7, 1024 if nbits != 1024 else 2048, 384)):
     if bits < 128:
       continue
     pb = bits // 2 + 1
